@@ -87,22 +87,75 @@ def _lines(text):
     return [x[:-1] if x.endswith("\r") else x for x in ls]
 
 
-def inline_text(store, url, expected, chain=()):
+def _via_expand(ref, via):
+    """Expand the harness's own zz-names ($zzname, ${zzname}; defined once,
+    before any use, by variant include-via-define) in an include reference:
+    the reference is expanded first and joined afterwards."""
+    for n, v in sorted((via or {}).items(), key=lambda kv: -len(kv[0])):
+        for sp in (n, n.upper()):
+            ref = ref.replace("${%s}" % sp, v).replace("$" + sp, v)
+    return ref
+
+
+def inline_text(store, url, expected, chain=(), via=None):
     """Lines of *url* with every '%include ref' whose target is in the store
     replaced by the target's lines.  Appends to *expected* every URL the
     loader is expected to open, in reading order."""
     out = []
     for line in _lines(store[url]):
         m = _INC.match(line)
-        if m and "$" not in m.group(1):
-            target = urllib.parse.urljoin(url, m.group(1))
+        ref = _via_expand(m.group(1), via) if m else None
+        if m and "$" not in ref:
+            target = urllib.parse.urljoin(url, ref)
             expected.append(target)
             if target in store and target not in chain and "#" not in target:
                 out.extend(inline_text(store, target, expected,
-                                       chain + (url,)))
+                                       chain + (url,), via))
                 continue
         out.append(line)
     return out
+
+
+def _via_define(rng, uni, res):
+    """Rewrite one '%include ref' so that (part of) the reference comes from
+    a %define read earlier: the directory part (absolute URL, or relative),
+    or the whole reference.  Returns (res', via) or None."""
+    incs = [(u, i) for u, ls in sorted(res.items())
+            for i, t in enumerate(ls) if _INC.match(t)
+            and "$" not in _INC.match(t).group(1)]
+    if not incs:
+        return None
+    u, i = rng.choice(incs)
+    ref = _INC.match(res[u][i]).group(1)
+    target = urllib.parse.urljoin(u, ref)
+    tdir, tbase = target.rsplit("/", 1)
+    shape = rng.choice(["absdir", "absdir", "whole", "whole-abs", "reldir"])
+    name = "zzdir"
+    if shape == "absdir":
+        value, new = tdir, "$%s/%s" % (name, tbase)
+    elif shape == "whole":
+        value, new = ref, "$" + name
+    elif shape == "whole-abs":
+        value, new = target, "${%s}" % name
+    else:
+        if "/" not in ref or ":" in ref:
+            value, new = tdir, "${%s}/%s" % (name, tbase)
+        else:
+            rdir, rbase = ref.rsplit("/", 1)
+            value, new = rdir or "/", "$%s/%s" % (name, rbase)
+            if not rdir:
+                value, new = tdir, "$%s/%s" % (name, tbase)
+    if rng.random() < 0.3:
+        new = new.replace(name, name.upper())
+    res = {k: list(v) for k, v in res.items()}
+    indent = res[u][i][:len(res[u][i]) - len(res[u][i].lstrip())]
+    res[u][i] = indent + "%include " + new
+    dline = "%%define %s %s" % (name, value)
+    if rng.random() < 0.5:
+        res[u].insert(i, dline)              # right before the include
+    else:
+        res[uni["top"]].insert(0, dline)     # first line of the load
+    return res, {name: value}
 
 
 # ---------------------------------------------------------------------------
@@ -205,7 +258,7 @@ def generate(rng, tier, index):
     variant = rng.choice(["plain", "plain", "plain", "invalid", "invalid",
                           "torn-cut", "torn-cut", "missing-fragment",
                           "open-fault", "define-conflict", "define-repeat",
-                          "include-twice"])
+                          "include-twice", "include-via-define"])
     plan = {"prop": ID, "schema_xml": xml, "top": uni["top"],
             "variant": variant, "fault": None}
     res = TF.res_texts(uni)
@@ -217,6 +270,12 @@ def generate(rng, tier, index):
             plan["variant"] = "plain"
     elif variant in ("define-conflict", "define-repeat"):
         res = _redefine(rng, uni, res, variant == "define-conflict")
+    elif variant == "include-via-define":
+        r = _via_define(rng, uni, res)
+        if r is None:
+            plan["variant"] = "plain"
+        else:
+            res, plan["via"] = r
     elif variant == "include-twice":
         # the same fragment included again: back to back, or a little later
         # at the same nesting level (textual inclusion twice)
@@ -338,6 +397,9 @@ def execute(plan):
                 out["probes"]["fragment-through-symlink"] = 1
         p2 = dict(plan)
         p2["missing"] = missing
+        if plan.get("via"):
+            p2["via"] = {k: _to_real(v, scratch)
+                         for k, v in plan["via"].items()}
         return _execute(p2, out, store, decoys, _to_real(plan["top"], scratch),
                         (scratch, cwd), report_plan=plan)
     finally:
@@ -364,7 +426,8 @@ def _execute(plan, out, store, decoys_in, top, real, report_plan=None):
             "plan": report_plan})
 
     expected = [top]
-    inlined = "".join(x + "\n" for x in inline_text(store, top, expected))
+    inlined = "".join(x + "\n" for x in inline_text(
+        store, top, expected, via=plan.get("via")))
     cut_store = dict(decoys_in)
     cut_store.update(store)
     if plan.get("missing"):
@@ -420,7 +483,8 @@ def _execute(plan, out, store, decoys_in, top, real, report_plan=None):
             # an include line survived inlining although its target exists
             raise RuntimeError("inliner left an include: %r" % inlined)
         if variant in ("plain", "invalid", "define-conflict",
-                       "define-repeat", "include-twice"):
+                       "define-repeat", "include-twice",
+                       "include-via-define"):
             if oi["ok"] != oc["ok"]:
                 violation("outcome-differs",
                           "inlined text %s but cut layout %s"
